@@ -395,8 +395,9 @@ def check_c04(rec, names, Model, seed):
         for p in range(L):
             feasible = all(0 <= p + k < L for k in offsets)
             for t in (p, p - L):
-                for entry, offset in (('solve_t', 0), ('solve', 0), ('solve_t', 1), ('solve_t', -1)):
-                    if offset and not (0 <= p + offset < L):
+                for entry, offset in (('solve_t', 0), ('solve', 0), ('solve_t', 1), ('solve_t', -1), ('solve_t', L), ('solve_t', -L - 1)):
+                    out_of_span = bool(offset) and not (0 <= p + offset < L)
+                    if out_of_span and abs(offset) < L:
                         continue
                     m = Model(span)
                     table = data_table(all_names, L, 2, seed + p)
@@ -424,7 +425,13 @@ def check_c04(rec, names, Model, seed):
                             same = (b[q] == a[q]) or (b.dtype.kind == 'f' and np.isnan(b[q]) and np.isnan(a[q]))
                             if not same:
                                 changed.add((k_, q))
-                    if feasible:
+                    if feasible and out_of_span:
+                        # an offset pointing outside the span: rejected up front, nothing changes
+                        if raised != 'IndexError':
+                            raise Mis('c04-out-of-span-offset-not-rejected', t=t, L=L, offset=offset, outcome=str(raised))
+                        if changed:
+                            raise Mis('c04-rejected-call-changed-state', t=t, L=L, offset=offset, changed=sorted(map(str, changed)))
+                    elif feasible:
                         if raised not in (None, 'SolutionError', 'ZeroDivisionError', 'OverflowError'):
                             raise Mis('c04-feasible-period-raised', exc=raised, t=t, L=L)
                         allowed = {(nm, p + k) for nm, k in writes} | {('status', p), ('iterations', p)}
